@@ -1,0 +1,24 @@
+//go:build verif
+
+package verifhooks
+
+import (
+	"io"
+
+	"github.com/bluenviron/gortsplib/v5/internal/asyncprocessor"
+	"github.com/bluenviron/gortsplib/v5/internal/base64streamreader"
+	"github.com/bluenviron/gortsplib/v5/internal/verifyield"
+)
+
+// Processor is asyncprocessor.Processor.
+type Processor = asyncprocessor.Processor
+
+// NewBase64StreamReader is base64streamreader.New.
+func NewBase64StreamReader(r io.Reader) io.Reader {
+	return base64streamreader.New(r)
+}
+
+// SetYieldHook installs the function invoked at every yield point.
+func SetYieldHook(f func(string)) {
+	verifyield.Set(f)
+}
